@@ -549,15 +549,35 @@ def tree_features(prog):
     """structural features computed from the finished tree (used to attribute mismatches to recorded findings precisely):
        enum-minus : a `-` whose left operand is an if-expression over Nat branches, or a variable defined by one
                     (static type: an enum of naturals such as {2, 3})
-       enum-div   : the same for `/`"""
+       enum-div   : the same for `/`
+       enum-neg   : the same for unary `-`"""
     feats = set()
     enum_vars = set()
 
+    enum_lists = set()
+
     def is_enum_nat(e):
+        """the expression's static type is (a union of) natural literals produced by an if-expression: the if-expression
+        itself, a variable defined by one, an element of a list (variable or literal) that contains one"""
         if e[0] == "if" and e[4] == "Nat":
             return True
         if e[0] == "var" and e[1] in enum_vars:
             return True
+        if e[0] == "index":
+            b = e[1]
+            if b[0] == "var" and b[1] in enum_lists:
+                return True
+            if b[0] == "list" and any(is_enum_nat(x) for x in b[1]):
+                return True
+        return False
+
+    def list_has_enum(e):
+        if e[0] == "list":
+            return any(is_enum_nat(x) for x in e[1])
+        if e[0] == "bin" and e[1] == "+":
+            return list_has_enum(e[2]) or list_has_enum(e[3])
+        if e[0] == "var":
+            return e[1] in enum_lists
         return False
 
     def walk(e):
@@ -567,6 +587,8 @@ def tree_features(prog):
             feats.add("enum-minus")
         if e[0] == "bin" and e[1] == "/" and is_enum_nat(e[2]):
             feats.add("enum-div")
+        if e[0] == "neg" and is_enum_nat(e[1]):
+            feats.add("enum-neg")
         for x in e[1:]:
             if isinstance(x, tuple):
                 walk(x)
@@ -577,8 +599,10 @@ def tree_features(prog):
     def stmts(ss):
         for s in ss:
             if s[0] == "def":
-                if s[3][0] == "if" and s[2] == "Nat" and not s[4]:
+                if is_enum_nat(s[3]) and s[2] == "Nat" and not s[4]:
                     enum_vars.add(s[1])
+                if isinstance(s[2], tuple) and s[2][0] == "List" and list_has_enum(s[3]):
+                    enum_lists.add(s[1])
                 walk(s[3])
             elif s[0] == "print":
                 for x in s[1]:
@@ -594,7 +618,9 @@ def tree_features(prog):
             elif s[0] == "ifstmt":
                 walk(s[1]); stmts(s[2]); stmts(s[3])
             elif s[0] == "tupdef":
-                for x in s[2]:
+                for (nm, ty), x in zip(s[1], s[2]):
+                    if ty == "Nat" and is_enum_nat(x):
+                        enum_vars.add(nm)
                     walk(x)
             elif s[0] == "exprstmt":
                 walk(s[1])
